@@ -4,8 +4,8 @@
    planners byte for byte on every run).   SQL semantics for window_semantic: model/SqlEval.v (C07, trusted). *)
 From Coq Require Import List ZArith NArith QArith String Ascii Bool.
 From Qryn Require Import lib.Strs lib.CivilDate model.Sql model.SqlRender model.SqlEval model.Logql model.LogqlPlan model.Scans
-  model.ScanCases model.ScansTq proofs.ScansProofs proofs.ScansPlanProofs proofs.ScansSemProofs proofs.ScansTqProofs proofs.ScansPromProofs proofs.ScansLabelProofs proofs.ScansProfProofs proofs.ScansReplanProfProofs.
-From Qryn Require Import model.PromSel model.ProfSel model.ScansPlanners model.ReplanProf model.ScansProf.
+  model.ScanCases model.ScansTq proofs.ScansProofs proofs.ScansPlanProofs proofs.ScansSemProofs proofs.ScansTqProofs proofs.ScansPromProofs proofs.ScansLabelProofs proofs.ScansProfProofs proofs.ScansReplanProfProofs proofs.ScansDateProofs proofs.ScansTempoProofs.
+From Qryn Require Import model.PromSel model.ProfSel model.ScansPlanners model.ReplanProf model.ScansProf model.ScansTempo.
 From Qryn Require model.TqSql model.Traceql model.TraceqlPlan.
 Import ListNotations.
 Open Scope Z_scope.
@@ -298,6 +298,36 @@ Theorem traceql_all_tags_every_scan_bounded : forall info c key,
 Proof. exact tq_all_tags_scans_bounded. Qed.
 Print Assumptions traceql_all_tags_every_scan_bounded.
 
+(* ---- the Tempo v1 API (model/ScansTempo.v: SQLIndexQuery.String, GetTracesQuery, GetQueryRequest, GetTagsRequest,
+   GetValuesRequest; tied byte for byte to the recorded statements in C13's run).  /api/search with start and end, by tags
+   or plain: for every tag list (= != =~ !~), limit, duration bounds, schema version, database name and layout the read of
+   tempo_traces has start_time_unix_nano (alias of timestamp_ns) >= from and <= to, every per-tag read of
+   tempo_traces_attrs_gin has date >= toDate(day(from)), date <= toDate(day(to)) and, on the current schema, the same
+   timestamp bounds.  (from is inclusive since the repair of trace-search-start-exclusive.) *)
+Theorem tempo_search_every_scan_bounded : forall db cluster tags limit from_ns to_ns min_d max_d v2,
+  0 < from_ns -> from_ns <= to_ns -> to_ns < max_day * ns_per_day ->
+  Forall (scan_bounded table_info (tempo_win from_ns to_ns)) (scans (search_query db cluster tags limit from_ns to_ns min_d max_d v2)).
+Proof. exact tempo_search_scans_bounded. Qed.
+Print Assumptions tempo_search_every_scan_bounded.
+
+(* /api/traces/{id} with start and end: timestamp_ns >= start and < end ... *)
+Theorem tempo_trace_every_scan_bounded : forall cluster id start_ns end_ns,
+  start_ns <> 0 -> end_ns <> 0 ->
+  Forall (scan_bounded table_info {| w_from := start_ns; w_to := end_ns; w_lo_min := start_ns; w_hi_max := end_ns; w_type := 0 |})
+         (scans (trace_query cluster id start_ns end_ns)).
+Proof. exact tempo_trace_scans_bounded. Qed.
+Print Assumptions tempo_trace_every_scan_bounded.
+
+(* ... without them the lookup reads tempo_traces over all time, and the v1 tag statements read tempo_traces_kv without
+   any date bound (their API has no window): recorded findings trace-by-id-without-window, tempo-tags-without-window *)
+Theorem tempo_unwindowed_reads_refuted :
+  let W0 := tempo_win 1704888000000000000 1704891600000000000 in
+  ~ Forall (scan_bounded table_info W0) (scans (trace_query false "0123456789abcdef0123456789abcdef" 0 0)) /\
+  ~ Forall (scan_bounded table_info W0) (scans (tags_query true)) /\
+  ~ Forall (scan_bounded table_info W0) (scans (values_query false "service.name")).
+Proof. exact tempo_unwindowed_unbounded. Qed.
+Print Assumptions tempo_unwindowed_reads_refuted.
+
 (* ---- the hypotheses are met by non-trivial values ------------------------------------------------- *)
 Example partial_guard_met :
   no_slf plain_query = true /\ plan_log plain_query true = Some plain_plan /\
@@ -358,3 +388,8 @@ Example traceql_estimate_guards_met :
   (match tq_eval_res tq_q1 with Some s => Nat.leb 2 (List.length (tq_scans s)) && tq_all_bounded_b s | None => false end = true) /\
   List.length (tq_scans (TE.all_tags tq_ctx0)) = 1%nat.
 Proof. exact tq_eval_examples. Qed.
+Example tempo_guards_met :
+  List.length (scans (search_query "qryn" true [tg_ab; tg_re] 20 1704888000000000000 1704891600000000000 1000000 0 true)) = 3%nat /\
+  List.length (scans (search_query "qryn" false [] 20 1704888000000000000 1704891600000000000 0 0 false)) = 1%nat /\
+  List.length (scans (trace_query true "0123456789abcdef0123456789abcdef" 1704888000000000000 1704891600000000000)) = 2%nat.
+Proof. exact tempo_examples. Qed.
